@@ -1047,7 +1047,7 @@ func (r *berRunner) decodeChild(c BerCase, cls string, data []byte, t reflect.Ty
 		switch {
 		case timedOut:
 			res = "timeout"
-		case runErr == nil && (line == "RESULT ok" || line == "RESULT error"):
+		case runErr == nil && (line == "RESULT ok" || line == "RESULT error" || line == "RESULT encdiff" || line == "RESULT decdiff"):
 			res = strings.TrimPrefix(line, "RESULT ")
 		case strings.HasPrefix(line, "RESULT panic"):
 			res = "panic"
@@ -1081,6 +1081,9 @@ func BerChild(tname, params, file string) error {
 	}
 	if tname == "@cold" {
 		return berCold(data)
+	}
+	if tname == "@hot" {
+		return berHot(data)
 	}
 	t, ok := prims[tname]
 	if !ok {
@@ -1153,6 +1156,82 @@ func berCold(data []byte) error {
 		return nil
 	}
 	fmt.Println("RESULT ok")
+	return nil
+}
+
+// berHot: values of every schema type are marshalled one after the other (the results copied at once), then marshalled and
+// decoded again from many tasks at the same time: every concurrent result must be the octets of the sequential call, and
+// must decode to the value it was made from.  data holds the seed.
+func berHot(data []byte) error {
+	seed, _ := strconv.ParseInt(strings.TrimSpace(string(data)), 10, 64)
+	rnd := rand.New(rand.NewSource(seed))
+	names := make([]string, 0, len(SchemaTypes))
+	for n := range SchemaTypes {
+		names = append(names, n)
+	}
+	sort.Strings(names)
+	type item struct {
+		t   reflect.Type
+		ptr reflect.Value
+		enc []byte
+	}
+	var items []item
+	for _, n := range names {
+		t := SchemaTypes[n]
+		ptr := reflect.New(t)
+		o := &fillOpt{rnd: rnd, present: "all", leaf: "small", maxDepth: 5, skipOpen: true}
+		o.fill(ptr.Elem(), 0)
+		if enc, err := asn.BerMarshalWithParams(ptr.Interface(), ""); err == nil {
+			items = append(items, item{t, ptr, append([]byte(nil), enc...)})
+		}
+	}
+	tasks := 4 * runtime.GOMAXPROCS(0)
+	start := make(chan struct{})
+	var wg sync.WaitGroup
+	var panics, encdiff, decdiff int32
+	for g := 0; g < tasks; g++ {
+		wg.Add(1)
+		go func(g int) {
+			defer wg.Done()
+			defer func() {
+				if recover() != nil {
+					atomic.AddInt32(&panics, 1)
+				}
+			}()
+			<-start
+			var held [][2][]byte
+			for k := range items {
+				it := items[(k*7+g*13)%len(items)]
+				enc, err := asn.BerMarshalWithParams(it.ptr.Interface(), "")
+				if err != nil || !bytes.Equal(enc, it.enc) {
+					atomic.AddInt32(&encdiff, 1)
+					continue
+				}
+				held = append(held, [2][]byte{enc, it.enc})
+				back := reflect.New(it.t)
+				if derr := asn.UnmarshalWithParams(enc, back.Interface(), ""); derr != nil || !equalModuloNilEmpty(it.ptr.Elem(), back.Elem()) {
+					atomic.AddInt32(&decdiff, 1)
+				}
+			}
+			for _, h := range held { // results stay what they were while other tasks keep encoding
+				if !bytes.Equal(h[0], h[1]) {
+					atomic.AddInt32(&encdiff, 1)
+				}
+			}
+		}(g)
+	}
+	close(start)
+	wg.Wait()
+	switch {
+	case panics > 0:
+		fmt.Println("RESULT panic")
+	case encdiff > 0:
+		fmt.Println("RESULT encdiff")
+	case decdiff > 0:
+		fmt.Println("RESULT decdiff")
+	default:
+		fmt.Println("RESULT ok")
+	}
 	return nil
 }
 
@@ -1526,6 +1605,11 @@ func RunBer(in, out string) error {
 			// concurrent decoding in processes that have not decoded anything before (c.N fresh processes)
 			for i := 0; i < c.N; i++ {
 				r.decodeChild(c, fmt.Sprintf("cold:%d", i), []byte(fmt.Sprint(c.Seed+int64(i))), SchemaTypes["CHFRecord"], "@cold", "")
+			}
+		case "hot":
+			// concurrent marshalling / decoding of the same values in fresh processes
+			for i := 0; i < c.N; i++ {
+				r.decodeChild(c, fmt.Sprintf("hot:%d", i), []byte(fmt.Sprint(c.Seed+int64(i))), SchemaTypes["CHFRecord"], "@hot", "")
 			}
 		case "types":
 			names := make([]string, 0, len(SchemaTypes))
